@@ -26,7 +26,7 @@ REQUIRED_THEOREMS = [
     "source_feature_passes_eq_model", "source_feature_set_exact", "source_flag_corners_eq_model", "source_corner_flagging_exact",
     # round 5: bodies of run() / clear()
     "source_run_resets", "source_run_feature_edges_exact", "source_run_feature_vertices_exact", "source_run_degrees_eq_model",
-    "source_run_local_feat_exact", "source_run_attributes",
+    "source_run_local_feat_exact", "source_run_attributes", "source_run_corner_flags",
 ]
 TRUSTED = [
     "Lean 4.33.0 kernel; axioms ⊆ {propext, Classical.choice, Quot.sound}",
@@ -976,8 +976,9 @@ def _smap():
     for f in ["_add_border_to_features", "_add_hard_edges_to_features", "_add_sharp_angles_to_features", "_flag_corners"]:
         m[F + f] = "translated"
     m[F + "run"] = ("translated: whole body (Generated/C15RunSrc.lean; theorems source_run_*): clear() first, both `feature` attributes opened "
-                    "and cleared, the three passes in order, the container loops, the final vertex flags; the normals branch, the _flag_corners "
-                    "call and the feature-graph block are recognised (exact shape required) and left out: they write none of the containers")
+                    "and cleared, the three passes in order, the container loops, the `if self.flag_corners: self._flag_corners(mesh)` call (source_run_corner_flags), "
+                    "the final vertex flags; the normals branch and the feature-graph block are recognised (exact shape required) and left out: "
+                    "they write none of the containers")
     m[F + "clear"] = "translated"
     m[F + "__init__"] = "modelled: the option attributes are inputs of the model"
     m[F + "detect"] = "modelled: alias of run"
